@@ -158,6 +158,24 @@ pub fn prop(id: &str) -> Option<Prop> {
             layouts_quick: 1,
             layouts_thorough: 1,
         },
+        "C07" => Prop {
+            id: "C07",
+            views: v(&[View::Diff, View::Crash, View::Abort, View::LibPanic]),
+            rule: "proptest-generated straight-line programs (no adoption) over the API shared with std::rc (construction x6, clone/drop, Weak API, raw round trips for Rc and Weak, inc/dec, try_unwrap, get_mut, make_mut, comparisons, Hash, Display/Debug/Pointer, Borrow/AsRef, values owning strong and Weak handles incl. leaking cycles), each interpreted over cactusref and over std::rc; observation traces and ordered destructor logs must be equal; non-trivial = a value with nested handles was destroyed, a Weak was observed after death, and try_unwrap/make_mut/raw round trip took its interesting branch; distinct = distinct program hash",
+            quick_cases: 60_000,
+            thorough_cases: 1_000_000,
+            layouts_quick: 1,
+            layouts_thorough: 1,
+        },
+        "C15" => Prop {
+            id: "C15",
+            views: v(&[View::Scale, View::Crash, View::Abort, View::LibPanic]),
+            rule: "proptest-generated size/shape parameters (ring, ring+chords, clique, ring with self-adoptions; N log-uniform up to 20k quick / 300k thorough, clique up to 120 / 400); graph built in O(N+E), orphaned by one final drop on a 128 KiB stack; oracle: all N destroyed, tables scanned <= 2N+2, worklist pops <= 2(N+E)+2 summed over every trace started by that drop; non-trivial = N >= 1000 (clique: n >= 40); distinct = distinct parameter hash",
+            quick_cases: 1_600,
+            thorough_cases: 4_000,
+            layouts_quick: 1,
+            layouts_thorough: 1,
+        },
         _ => return None,
     };
     Some(p)
